@@ -966,6 +966,16 @@ def r6_document(ctx):
         if dst and dst["l"] == L and dst["p"]:
             fld = [e.get("n") for e in dst["p"] if isinstance(e, dict) and "f" in e]
             got.setdefault(fld[0], []).append((bb, q.ev_op(fr, t["args"][1]), "clone_from"))
+    # idiom B: the loop iterates `endpoints(..).filter(|(_, _, e)| e.visible)` instead of testing `visible` in the body
+    from .lib import closure_args_of_call as _cac
+    filtered_visible = False
+    for fbb, ft in go.live_calls(r"iter::Iterator::filter$"):
+        if not go.slice(ft["args"][0]).has_call(r"HttpRouter::<Context>::endpoints$"):
+            continue
+        for h, node in _cac(go, ft):
+            hs = h.slice({"l": 0, "p": []})
+            if hs.reads_field("visible") and ("unop", "Not") not in hs.atoms and not [c for c in hs.callee_names() if not re.search(r"Deref::deref$|clone::Clone::clone$", c)]:
+                filtered_visible = True
     ep_root = None
     for name in ("operation_id", "summary", "description", "tags", "deprecated"):
         ws = got.get(name, [])
@@ -977,15 +987,18 @@ def r6_document(ctx):
                 ok = ok and v[0] == "agg" and v[2] == "Some"
                 inner = v[3][0] if v[0] == "agg" and v[3] else v
             core = Q.strip_plumb(inner, OPT_PLUMB)
-            src_ok = core[0] == "field" and core[2] == name and any(re.search(r"HttpRouter::<Context>::endpoints$", c) for c in Q.callees(core)) and not _only(inner, PLUMB + [r"HttpRouter::<Context>::endpoints$"])
+            src_ok = core[0] == "field" and core[2] == name and any(re.search(r"HttpRouter::<Context>::endpoints$", c) for c in Q.callees(core)) and \
+                not _only(inner, PLUMB + [r"HttpRouter::<Context>::endpoints$"] + ([r"iter::Iterator::filter$"] if filtered_visible else []))
             if src_ok:
                 ep_root = ep_root or Q.nosite(core[1])
                 src_ok = Q.nosite(core[1]) == ep_root
             vis = any(gv is True and gt[0] == "field" and gt[2] == "visible" and Q.nosite(gt[1]) == Q.nosite(core[1]) for gt, gv in q.guards_of(fr, bb)) if core[0] == "field" else False
+            if not vis and filtered_visible and core[0] == "field" and any(re.search(r"iter::Iterator::filter$", c) for c in Q.callees(core)):
+                vis = True   # the element comes out of the visible-filter
             ok = ok and src_ok and vis
             detail = "operation.%s <- %s (%s) ; same endpoint item: %s ; only on endpoint.visible == true: %s" % (name, cap(Q.show(v), 120), how, src_ok, vis)
         ctx.check(R, "operation.%s" % name, ok, detail, (go, ws[0][0]) if ws else go)
-    vis0 = any(gv is True and gt[0] == "field" and gt[2] == "visible" for gt, gv in q.guards_of(fr, obb))
+    vis0 = any(gv is True and gt[0] == "field" and gt[2] == "visible" for gt, gv in q.guards_of(fr, obb)) or filtered_visible
     ctx.check(R, "operation-built-only-when-visible", vis0, "Operation::default() is reached only through the endpoint.visible == true edge: %s" % vis0, (go, obb))
     # the operation that was filled is the one stored in the path item's method slot
     stored = False
